@@ -167,6 +167,18 @@ def make_case(rng, size="small", klass=None, meters=None, features=None, divs=No
                 for o in objs:
                     if isinstance(getattr(o, "staff", None), int):
                         o.staff += 9
+    c.unquantised = False
+    if divs in (480, 960) and rng.random() < 0.35:
+        # an unquantised score (as read from MIDI): some notes end a few divisions early
+        import partitura.score as S_
+        for n_ in list(part.iter_all(S_.Note)):
+            d_ = n_.end.t - n_.start.t
+            if n_.tie_next is None and n_.tie_prev is None and d_ > 16 and rng.random() < 0.3:
+                new_end = n_.end.t - rng.randint(1, 7)
+                part.remove(n_, "end")
+                part.add(n_, end=new_end)
+                n_.symbolic_duration = None
+                c.unquantised = True
     if rng.random() < 0.1:
         # the part counts in musical beats (dotted quarters in 6/8): the file still counts beats of the denominator
         part.use_musical_beat()
